@@ -5,6 +5,9 @@
   speak about the code as written).  A changed table entry in the C source makes one of these proofs fail on the next run.
 -/
 import LP.Gen.SignCondition
+import LP.Gen.IntervalCmp
+import LP.Gen.IcmpModel
+import LP.Model.FSet
 import LP.Model.Feasible
 import LP.Model.IntervalPoly
 import Mathlib.Tactic.IntervalCases
@@ -39,6 +42,63 @@ theorem consistentInterval_eq (c : ℕ) (hc : c < 6) (I : VI) :
   interval_cases c <;> cases pt <;> cases ao <;> cases bo <;>
     simp only [consistentInterval, consistent, VI.consistentInterval, b2i] <;> norm_num <;>
     (try split_ifs) <;> (try simp_all) <;> (try omega)
+
+
+/-! ### `lp_interval_cmp_with_intersect` (classification part) -/
+
+theorem cwi_class (I1 I2 : VI) : (VI.cmpWithIntersect I1 I2).1 =
+    cwiClass (VI.cmpUpper I1 I2) (VI.cmpLower I1 I2) (EP.cmp I1.upper I2.lower) (EP.cmp I1.lower I2.upper)
+      I1.aOpen I1.bOpen I2.aOpen I2.bOpen := by
+  unfold VI.cmpWithIntersect VI.cwiCore VI.cwiLt VI.cwiGt cwiClass
+  simp only [apply_ite Prod.fst]
+
+def sgns : List Int := [-1, 0, 1]
+def bools : List Bool := [false, true]
+
+theorem table_eq : sgns.all (fun cu => sgns.all (fun cl => sgns.all (fun x => sgns.all (fun z =>
+    bools.all (fun a1 => bools.all (fun b1 => bools.all (fun a2 => bools.all (fun b2 =>
+      intervalCmp cu cl x z (b2i a1) (b2i b1) (b2i a2) (b2i b2) == icmpCode (cwiClass cu cl x z a1 b1 a2 b2))))))))) = true := by
+  decide +kernel
+
+theorem cmpQ_range (a b : Rat) : cmpQ a b ∈ sgns := by
+  unfold cmpQ sgns; split_ifs <;> simp
+
+theorem ep_cmp_range (a b : EP) : EP.cmp a b ∈ sgns := by
+  cases a with
+  | ninf => cases b <;> simp [EP.cmp, sgns]
+  | pinf => cases b <;> simp [EP.cmp, sgns]
+  | fin p =>
+    cases b with
+    | ninf => simp [EP.cmp, sgns]
+    | pinf => simp [EP.cmp, sgns]
+    | fin q => exact cmpQ_range p q
+
+theorem cmpUpper_range (I1 I2 : VI) : VI.cmpUpper I1 I2 ∈ sgns := by
+  unfold VI.cmpUpper
+  simp only
+  have := ep_cmp_range I1.upper I2.upper
+  split_ifs <;> simp_all [sgns]
+
+theorem cmpLower_range (I1 I2 : VI) : VI.cmpLower I1 I2 ∈ sgns := by
+  unfold VI.cmpLower
+  simp only
+  have := ep_cmp_range I1.lower I2.lower
+  split_ifs <;> simp_all [sgns]
+
+/-- **`lp_interval_cmp_with_intersect` classifies exactly as the model does**: the definition generated from
+    src/interval/interval.c, fed with the model's bound comparisons, returns the code of the model's classification -/
+theorem intervalCmp_eq (I1 I2 : VI) :
+    intervalCmp (VI.cmpUpper I1 I2) (VI.cmpLower I1 I2) (EP.cmp I1.upper I2.lower) (EP.cmp I1.lower I2.upper)
+      (b2i I1.aOpen) (b2i I1.bOpen) (b2i I2.aOpen) (b2i I2.bOpen) = icmpCode (VI.cmpWithIntersect I1 I2).1 := by
+  rw [cwi_class]
+  have h := table_eq
+  simp only [List.all_eq_true] at h
+  have hb : ∀ b : Bool, b ∈ bools := by intro b; cases b <;> simp [bools]
+  have := h _ (cmpUpper_range I1 I2) _ (cmpLower_range I1 I2) _ (ep_cmp_range I1.upper I2.lower) _ (ep_cmp_range I1.lower I2.upper)
+    _ (hb I1.aOpen) _ (hb I1.bOpen) _ (hb I2.aOpen) _ (hb I2.bOpen)
+  simpa using this
+
+theorem icmp_enum_order : icmpEnumValues = [0, 1, 2, 3, 4, 5, 6, 7, 8] := by decide
 
 end Gen
 end LP
